@@ -87,6 +87,10 @@ def rules(ctx):
     c084(ctx)
     c085(ctx)
     c086(ctx)
+    # files are released when the version naming them is superseded; that is sound only if a version is superseded after the
+    # manifest edit removing its files is durable (C02.4: Manifest::apply precedes install_version on every path)
+    from . import C02
+    C02.c024(ctx)
 
 
 def c081(ctx):
